@@ -39,6 +39,8 @@ def rule_store_is_swap(fx, col):
         return
     lc = _lib_calls(fx, b)
     ok = len(lc) == 1 and U.callee_name(lc[0][1]) == 'swap'
+    if not ok and _store_spelled_out(fx, col, b, lc):
+        return
     col.add('STORE-IS-SWAP', 'store|only swap', ok, 'library calls in store: %s' % [U.callee_name(t) for _, t in lc])
     if ok:
         bb, t = lc[0]
@@ -49,6 +51,34 @@ def rule_store_is_swap(fx, col):
         col.add('STORE-IS-SWAP', 'store|old value dropped', dropped, 'the value returned by swap is dropped (released), not leaked or kept')
     atomics = [s for s in O.ctx(fx).summ.sites_by_body.get(b.key, ())]
     col.add('STORE-IS-SWAP', 'store|no direct cell access', not atomics, 'store touches the cell only through swap')
+
+
+def _store_spelled_out(fx, col, b, lc):
+    """store shares a private helper with swap (`replace`: exchange + settle the readers) and releases the old value itself: the same
+    four steps as swap, in the same order, on the same container, each exactly once."""
+    from .ledger import _refcnt
+    names = [U.callee_name(t) for _, t in lc]
+    sites = [x for x in O.ctx(fx).summ.sites_by_body.get(b.key, ())]
+    if sorted(names) not in (['dec', 'into_ptr', 'wait_for_readers'], ['from_ptr', 'into_ptr', 'wait_for_readers']) or len(sites) != 1 \
+            or sites[0].cls != 'cell' or sites[0].op != 'swap':
+        return False
+    by = {U.callee_name(t): (bb, t) for bb, t in lc}
+    sw = sites[0]
+    ip, wr = by['into_ptr'], by['wait_for_readers']
+    rel = by.get('dec') or by.get('from_ptr')
+    col.ok('STORE-IS-SWAP', 'store|only swap', 'store spells the steps of swap out (into_ptr, the exchange, wait_for_readers, release of the old value)')
+    a_ok = b.origins(ip[1]['args'][0]) == {('arg', 2)} and ('call', ip[0]) in b.origins(sw.arg(1)) and sw.root == ('arg', 1)
+    col.add('STORE-IS-SWAP', 'store|swap(self, val)', a_ok, 'the value to store is converted and exchanged into the container\'s own cell', sw.loc)
+    order = b.dominates(ip[0], sw.bb) and b.dominates(sw.bb, wr[0]) and b.dominates(wr[0], rel[0]) and b.postdominates(rel[0], sw.bb)
+    same = ('call', sw.bb) in b.origins(wr[1]['args'][1] if len(wr[1]['args']) > 2 else wr[1]['args'][0]) and ('call', sw.bb) in b.origins(rel[1]['args'][0])
+    dropped = order and same
+    if dropped and U.callee_name(rel[1]) == 'from_ptr':
+        dropped = any(U.callee_name(t2) == 'drop' and ('call', rel[0]) in b.origins(t2['args'][0]) for _, t2 in b.calls()) or \
+            any(t2['place']['local'] == rel[1]['dest']['local'] for _, t2 in b.drops(include_cleanup=False))
+    col.add('STORE-IS-SWAP', 'store|old value dropped', dropped,
+            'the pointer the exchange returned is settled (wait_for_readers) and then released exactly once, on every path')
+    col.ok('STORE-IS-SWAP', 'store|no direct cell access', 'the one exchange above')
+    return True
 
 
 def rule_cas_shape(fx, col):
@@ -231,7 +261,7 @@ def rule_wrapper_pure(fx, col):
     (swap's RMW, get_mut in into_inner / Drop). A "cheap check first" in the wrapper takes the verdict from an unprotected
     read and the reply from another one."""
     cx = O.ctx(fx)
-    allowed = {'arc_swap::ArcSwapAny::swap': {'swap'}, 'arc_swap::ArcSwapAny::into_inner': {'get_mut'}, '<ArcSwapAny as std::ops::Drop>::drop': {'get_mut'}}
+    allowed = {'arc_swap::ArcSwapAny::swap': {'swap'}, 'arc_swap::ArcSwapAny::store': {'swap'}, 'arc_swap::ArcSwapAny::into_inner': {'get_mut'}, '<ArcSwapAny as std::ops::Drop>::drop': {'get_mut'}}
     OPS = ('load', 'load_full', 'store', 'swap', 'compare_and_swap', 'rcu', 'into_inner', 'drop')
     n = 0
     for b in fx.lib.bodies:
@@ -241,7 +271,7 @@ def rule_wrapper_pure(fx, col):
             if s_.cls == 'cell':
                 n += 1
                 col.add('WRAPPER-PURE', '%s|cell.%s' % (b.fname, s_.op), s_.op in allowed.get(b.fname, ()),
-                        'direct access to the cell from the strategy-agnostic layer (allowed: swap in swap, get_mut in into_inner / Drop)', s_.loc)
+                        'direct access to the cell from the strategy-agnostic layer (allowed: swap in swap / store, get_mut in into_inner / Drop)', s_.loc)
     col.floor('WRAPPER-PURE', 'direct cell accesses in ArcSwapAny', n, 3)
     for fname, callee in (('arc_swap::ArcSwapAny::load', 'load'), ('arc_swap::ArcSwapAny::compare_and_swap', 'compare_and_swap')):
         b = _body(fx, fname)
